@@ -6,7 +6,10 @@
 // func(int) message executed on the serve goroutine, like TestStreamState does.
 package http2
 
-import "net/http"
+import (
+	"net/http"
+	"testing/synctest"
+)
 
 // VerifCounters is a snapshot of the scheduler state owned by the serve goroutine.
 type VerifCounters struct {
@@ -39,15 +42,18 @@ func (sc *serverConn) VerifCounters() (c VerifCounters, ok bool) {
 			GoAwayCode:        uint32(sc.goAwayCode),
 		}
 	}
+	// Never block here: a blocked root goroutine lets the bubble's fake clock run on to the next
+	// timer (e.g. prefaceTimeout while serve() is still in readPreface).
 	select {
 	case sc.serveMsgCh <- f:
-	case <-sc.doneServing:
+	default:
 		return c, false
 	}
+	synctest.Wait()
 	select {
 	case c = <-ch:
 		return c, true
-	case <-sc.doneServing:
+	default:
 		return c, false
 	}
 }
